@@ -186,9 +186,32 @@ fn random_string(r: &mut Rng) -> String {
     }
 }
 
+/// Strings in which a number is spelled `nan` or `inf` are outside C01's accept/reject claim (the
+/// underlying number parser happens to tolerate them): only totality and validity are required there.
+fn outside_accept_reject_claim(text: &str) -> bool {
+    let t = text.to_lowercase();
+    t.contains("nan") || t.contains("inf")
+}
+
 pub fn parse_op(s: &mut Session, text: &str, gen_kind: &str) -> Option<Option<Color>> {
     let res = guard(|| parse_color(text));
     let op = format!("parse {}", hex_str(text));
+    if outside_accept_reject_claim(text) {
+        s.count_case(&op, true);
+        s.tag("gen:nan-inf-spelling (totality and validity only)");
+        match &res {
+            None => s.fail("no-panic", "parser::parse_color", format!("{:?}", text), "parse_color panicked".into()),
+            Some(None) => {}
+            Some(Some(c)) => {
+                let h = c.to_hsla();
+                let f = c.to_rgba_float();
+                let ok_range = |v: f64| v.is_finite() && (-1e-9..=1.0 + 1e-9).contains(&v); // C05's tolerance for derived channels
+                s.check(h.h.is_finite() && (0.0..=360.0).contains(&h.h) && ok_range(h.s) && ok_range(h.l) && ok_range(h.alpha) && ok_range(f.r) && ok_range(f.g) && ok_range(f.b),
+                    "accepted-nan-inf-spelling-is-a-valid-colour", "parser::parse_color", || format!("{:?}", text), || format!("{:?} {:?}", h, f));
+            }
+        }
+        return res;
+    }
     match &res {
         None => {
             s.fail("no-panic", "parser::parse_color", format!("{:?}", text), "parse_color panicked".into());
